@@ -137,7 +137,7 @@ crate::fs_harness!(c08_load_mem_tup2 @ 13 => { load_mem_ok::<Tup2, 0>() });
 crate::fs_harness!(c08_load_mem_arru32x1 @ 13 => { load_mem_ok::<ArrU32x1, 0>() });
 crate::fs_harness!(c08_load_mem_zeros @ 22 => { load_mem_ok::<ZeroSC, 0>() });
 crate::fs_harness!(c08_load_mem_optu8 @ 28 => { load_mem_ok::<OptU8, 0>() });
-crate::fs_harness!(c08_load_mem_u64_trail20 @ 13 => { load_mem_ok::<U64, 20>() });
+crate::fs_harness!(c08_load_mem_u64_trail8 @ 13 => { load_mem_ok::<U64, 8>() });
 crate::fs_harness!(c08_load_full_u32 @ 13 => { load_full_ok::<U32>() });
 crate::fs_harness!(c08_load_full_tup2 @ 13 => { load_full_ok::<Tup2>() });
 crate::fs_harness!(c08_store_u32 @ 13 => { store_ok::<U32>() });
